@@ -77,6 +77,10 @@ def classify_exc(e):
     for key, k in MESSAGES:
         if key in msg:
             return {"reject": k, "msg": msg[:160], "cls": type(e).__name__}
+    # a deliberate `raise Exception(...)` / click error whose wording is not one of the known messages:
+    # still an explanatory refusal (class 0: the model does not know it, the property does not object)
+    if type(e) is Exception or type(e).__module__.startswith("click"):
+        return {"reject": 0, "msg": msg[:160], "cls": type(e).__name__}
     return {"crash": err_kind(e), "msg": msg[:160], "cls": type(e).__name__}
 
 
